@@ -16,7 +16,7 @@ F_DER = "generate_derivative_real_spherical_harmonics"
 F_SOL = "solid_harmonics"
 F_C2S = "convert_cart_to_sph"
 REQUIRED_HOOKS = ["utils." + f for f in (F_REC, F_SCI, F_DER, F_SOL, F_C2S)]
-REQUIRED_FAMILIES = ["values", "derivative", "solid", "cart2sph", "chain", "library-callers", "dtype-angles", "dtype-cart2sph", "history"]
+REQUIRED_FAMILIES = ["values", "derivative", "solid", "cart2sph", "chain", "library-callers", "dtype-angles", "dtype-cart2sph", "history", "batch", "nsweep"]
 BUDGET = {"quick": 600, "thorough": 6000}
 RULE = (
     "Post-conditions attached to the five public functions of grid.utils (all bindings, fire on every call incl. the "
@@ -35,7 +35,14 @@ RULE = (
     "as None/list/tuple/ndarray (integer, fractional, float32, strided): decided by the same post-conditions and compared with the "
     "result for the contiguous float64 copy; history: a monitor keeps the last 3 arrays returned by each of the five functions "
     "(plus explicit same-shape call sequences) and re-verifies after every later call that they still hold the values they had "
-    "when returned and share no memory with newer results. A case is non-trivial when at least one decided oracle "
+    "when returned and share no memory with newer results; batch: point sets of 1e3..1e5 points, EVERY column decided by the "
+    "post-conditions (oracle in chunks, d/dphi also by the degree-lowering identity on the oracle) and batch invariance: columns of "
+    "the large call == calls on subsets (first k, last k, single first/last/interior point, split at a random position, every "
+    "third), tol 1e-14 (bitwise on the current tree); nsweep: calls with the N leading points of one pool, every column compared "
+    "with the previous call and first/last column with single-point calls: quick every N in 1..150 at lmax 3 (all five "
+    "functions), every N in 1..125 at lmax 200 (SciPy path), a seed-rotated sample of N <= 2600 plus 2^k, 2^k+1 at lmax 30/40/64; "
+    "thorough every N in 1..1500 at lmax 30, 40, 64 (SciPy), 30, 40 (recursion), 1..4200 at lmax 3, small-N sweeps at lmax "
+    "100..250. A case is non-trivial when at least one decided oracle "
     "evaluation ran on it; reflected-angle cases are marked trivial."
 )
 ASSUMPTIONS = [
@@ -703,11 +710,160 @@ def cases(tier, seed):
                     if fn == "c2s" and lmax > 0:
                         continue
                     out.append(("history", {"fn": fn, "lmax": lmax, "n": n, "k": k}, 0.5 + 2e-4 * (lmax + 1) ** 2 * n / 10))
+    # LARGE point sets (every column decided by the post-conditions) + BATCH INVARIANCE: the result for a point does not
+    # depend on the batch it is in (columns of the large call == calls with subsets)
+    big = {"rec": [(2, 100000), (8, 30000), (13, 20000), (30, 5000), (40, 3000), (64, 1500)],
+           "sci": [(2, 100000), (8, 30000), (13, 20000), (30, 5000), (40, 3000), (64, 1500)],
+           "sol": [(2, 100000), (8, 20000), (13, 6000), (30, 1500)],
+           "der": [(1, 50000), (3, 20000), (5, 8000), (8, 3000)],
+           "c2s": [(0, 100000), (0, 20000), (0, 3000)]}
+    for fn, lst in big.items():
+        for j, (lmax, n) in enumerate(lst):
+            for k in range(1 if quick else 3):
+                if quick and j % 2 == 1 and fn != "c2s":
+                    continue
+                out.append(("batch", {"fn": fn, "lmax": lmax, "n": n if not quick else max(1000, n // 3), "k": k}, 2.0 + 2e-6 * (lmax + 1) ** 2 * n * (4 if fn in ("sol", "der") else 1)))
+    # N SWEEPS: calls with N = n0 .. n1-1 leading points of one pool, every column compared with the previous call
+    out += _sweep_cases(tier, seed)
     out.append(("cart2sph-negzero-observed", {}, 0.5))
     out.append(("edge", {"what": "empty"}, 0.5))
     out.append(("edge", {"what": "single-point"}, 0.5))
     out.append(("edge", {"what": "strided-readonly"}, 0.5))
     return out
+
+
+SWEEP_CHUNK = 25  # consecutive N per case
+
+
+def _sweep_cases(tier, seed):
+    """(a) contiguous sweeps: every N in a range, split into cases of SWEEP_CHUNK consecutive N; (b) sampled sweeps (quick):
+    a seed-rotated sample of N plus N = 2**k and 2**k + 1.  Ranges: all five functions at low lmax; SciPy/recursion at
+    moderate lmax (thorough: every N up to 1500 at lmax 30, 40, 64); and small N at the highest lmax of the tier, where a
+    memory-bounded blocking would have its smallest blocks."""
+    out = []
+    quick = tier == "quick"
+
+    def contiguous(fn, lmax, n0, n1, w):
+        chunk = SWEEP_CHUNK if lmax < 100 else 10
+        for a in range(n0, n1, chunk):  # each case starts one N earlier so that every consecutive pair (N-1, N) is compared
+            out.append(("nsweep", {"fn": fn, "lmax": lmax, "start": max(n0, a - 1), "stop": min(n1, a + chunk)}, w * chunk / SWEEP_CHUNK))
+
+    if quick:
+        for fn in ("rec", "sci", "sol", "der", "c2s"):
+            contiguous(fn, 0 if fn == "c2s" else 3, 1, 151, 0.8)
+        contiguous("sci", 200, 1, 126, 40.0)
+        rng = np.random.default_rng([seed, 8, 77])
+        pow2 = sorted({2**k + d for k in range(1, 12) for d in (0, 1)})
+        for fn, lmax, nmax in (("sci", 30, 2600), ("rec", 30, 2600), ("sci", 40, 1500), ("rec", 40, 1500), ("sci", 64, 1100), ("sol", 8, 3000), ("der", 5, 1500), ("c2s", 0, 5000)):
+            ns = sorted(set(int(v) for v in rng.integers(1, nmax + 1, 24)) | {v for v in pow2 if v <= nmax})
+            for i in range(0, len(ns), 12):
+                out.append(("nsweep", {"fn": fn, "lmax": lmax, "list": ns[i : i + 12]}, 1.0 + 2e-6 * (lmax + 1) ** 2 * nmax * 6))
+    else:
+        for fn in ("rec", "sci", "sol", "der", "c2s"):
+            contiguous(fn, 0 if fn == "c2s" else 3, 1, 1501 if fn in ("sol", "der") else 4201, 1.0)
+        for lmax in (30, 40, 64):
+            contiguous("sci", lmax, 1, 1501, 4.0 + lmax / 4)
+        for lmax in (30, 40):
+            contiguous("rec", lmax, 1, 1501, 6.0 + lmax / 4)
+        contiguous("rec", 64, 1, 601, 14.0)
+        contiguous("sol", 13, 1, 401, 3.0)
+        contiguous("der", 8, 1, 401, 3.0)
+        for lmax, n1 in ((100, 451), (150, 201), (200, 126), (250, 81)):
+            contiguous("sci", lmax, 1, n1, 10.0 + lmax / 10)
+        for lmax, n1 in ((100, 226), (150, 101), (200, 61)):
+            contiguous("rec", lmax, 1, n1, 14.0 + lmax / 10)
+    return out
+
+
+def _pool(n, rng):
+    """Angle / radius pool with structured points sprinkled in (poles, equator, multiples of pi/2, wide azimuth)."""
+    th = rng.uniform(-20, 20, n)
+    ph = np.arccos(rng.uniform(-1, 1, n))
+    ph[::37] = 0.0
+    ph[5::41] = np.pi
+    ph[11::43] = np.pi / 2
+    th[3::29] = (np.pi / 2) * (np.arange(len(th[3::29])) % 9 - 4)
+    r = 10.0 ** rng.uniform(-1, 0.5, n)
+    r[7::53] = 0.0
+    return th, ph, r
+
+
+def _eval(gu, fn, lmax, th, ph, r, pts, sl):
+    if fn == "c2s":
+        return gu.convert_cart_to_sph(pts[sl], np.array([0.3, -0.2, 0.1]))
+    return _call(gu, fn, lmax, th[sl], ph[sl], r[sl])
+
+
+def _cols(fn, R, sl):
+    """The entries of a result belonging to the points ``sl`` of its batch."""
+    return R[sl] if fn == "c2s" else R[..., sl]
+
+
+def _col_dev(a, b):
+    d = np.abs(np.asarray(a, dtype=o8.LD) - np.asarray(b, dtype=o8.LD)) / (1.0 + np.abs(np.asarray(b, dtype=o8.LD)))
+    if d.size == 0:
+        return 0.0
+    return float(np.max(np.where(np.isnan(d), np.inf, d)))
+
+
+def _run_batch(ctx, gu, params):
+    rng = ctx.rng
+    fn, lmax, n = params["fn"], params["lmax"], params["n"]
+    name = FN_NAME[fn]
+    th, ph, r = _pool(n, rng)
+    pts = rng.normal(size=(n, 3)) * 10.0 ** rng.uniform(-1, 1, (n, 1))
+    with ctx.guard("no-exception", name + ":large"):
+        R = _eval(gu, fn, lmax, th, ph, r, pts, slice(None))
+    ctx.case_note("n_points", n)
+    k1 = int(rng.integers(1, max(2, n // 4)))
+    k2 = int(rng.integers(1, max(2, n // 4)))
+    cut = int(rng.integers(1, n))
+    subsets = {"first-k": slice(0, k1), "last-k": slice(n - k2, n), "single-last": slice(n - 1, n), "single-first": slice(0, 1), "split-head": slice(0, cut), "split-tail": slice(cut, n), "every-third": slice(int(rng.integers(0, 3)), n, 3), "single-interior": slice(cut, cut + 1)}
+    for label, sl in subsets.items():
+        with ctx.guard("no-exception", f"{name}:{label}"):
+            S = _eval(gu, fn, lmax, th, ph, r, pts, sl)
+        want = _cols(fn, R, sl)
+        if np.shape(S) != np.shape(want):
+            ctx.fail("batch-invariance", f"{name}:{label}", "shape-differs", detail={"subset": list(np.shape(S)), "columns_of_large_call": list(np.shape(want))})
+            continue
+        dev = _col_dev(want, S)
+        _chk(ctx, "batch-invariance", f"{name}:{label}", dev, 1e-14, sig="column-depends-on-batch", detail={"lmax": lmax, "n": n, "subset": label, "dev": dev})
+
+
+def _run_nsweep(ctx, gu, params):
+    rng = ctx.rng
+    fn, lmax = params["fn"], params["lmax"]
+    name = FN_NAME[fn]
+    ns = params.get("list") or list(range(params["start"], params["stop"]))
+    nmax = max(ns)
+    th, ph, r = _pool(nmax, rng)
+    pts = rng.normal(size=(nmax, 3)) * 3.0
+    prev, prev_n = None, 0
+    worst, worst_at = 0.0, None
+    for i, N in enumerate(ns):
+        with ctx.guard("no-exception", f"{name}:N-sweep"):
+            R = _eval(gu, fn, lmax, th, ph, r, pts, slice(0, N))
+        ctx.count("nsweep-calls:" + name)
+        if prev is not None:  # every column the two batches have in common
+            m = min(N, prev_n)
+            a, b = _cols(fn, R, slice(0, m)), _cols(fn, prev, slice(0, m))
+            if np.shape(a) == np.shape(b):
+                dev = _col_dev(a, b)
+                if dev > worst or worst_at is None:
+                    worst, worst_at = dev, (prev_n, N)
+            else:
+                worst, worst_at = float("inf"), (prev_n, N)
+        if i == 0 or i == len(ns) - 1 or i % 8 == 0:  # the last and the first column against single-point calls
+            for label, j in (("last", N - 1), ("first", 0)):
+                with ctx.guard("no-exception", f"{name}:single-point"):
+                    S = _eval(gu, fn, lmax, th, ph, r, pts, slice(j, j + 1))
+                want = _cols(fn, R, slice(j, j + 1))
+                dev = _col_dev(want, S) if np.shape(S) == np.shape(want) else float("inf")
+                _chk(ctx, "batch-invariance", f"{name}:N-sweep:{label}-column-vs-single-point", dev, 1e-14, sig="column-depends-on-batch", detail={"lmax": lmax, "N": N, "column": j})
+        prev, prev_n = R, N
+    if worst_at is not None:
+        _chk(ctx, "batch-invariance", f"{name}:N-sweep:consecutive-calls", worst, 1e-14, sig="column-depends-on-batch", detail={"lmax": lmax, "N_pair": list(worst_at), "dev": worst})
+    ctx.case_note("N_values", [ns[0], ns[-1], len(ns)])
 
 
 def _angles(kind, n, rng):
@@ -836,6 +992,10 @@ def run_case(ctx, family, params):
         _run_dtype_c2s(ctx, gu, params)
     elif family == "history":
         _run_history(ctx, gu, params)
+    elif family == "batch":
+        _run_batch(ctx, gu, params)
+    elif family == "nsweep":
+        _run_nsweep(ctx, gu, params)
     elif family == "edge":
         _run_edge(ctx, gu, params)
     else:
